@@ -175,6 +175,7 @@ class FutureImplBase : private FutureImplResultMember<Result> {
 
   void decRefCountMaybeDestroy() {
     DISPENSO_TSAN_ANNOTATE_HAPPENS_BEFORE(&refCount_);
+    DISPENSO_VERIF_POINT(::dispenso::verif::kFutureDecRefBeforeDestroy);
     if (refCount_.fetch_sub(1, std::memory_order_release) == 1) {
       DISPENSO_TSAN_ANNOTATE_HAPPENS_AFTER(&refCount_);
       dealloc();
@@ -213,8 +214,10 @@ class FutureImplBase : private FutureImplResultMember<Result> {
   bool run(int s) {
     while (s == kNotStarted) {
       if (status_.intrusiveStatus().compare_exchange_weak(s, kRunning, std::memory_order_acq_rel)) {
+        DISPENSO_VERIF_POINT(::dispenso::verif::kFutureRunAfterCas);
         runFunc();
         status_.notify(kReady);
+        DISPENSO_VERIF_POINT(::dispenso::verif::kFutureRunAfterNotify);
         if (taskSetCounter_) {
           //  If we want TaskSet::wait to imply Future::is_ready(),
           //  we need to signal that *after* setting the Future status to ready.
@@ -286,6 +289,7 @@ class FutureImplBase : private FutureImplResultMember<Result> {
       }
       return;
     }
+    DISPENSO_VERIF_POINT(::dispenso::verif::kFutureThenAfterReadyTest);
 
     constexpr size_t kImplSize = static_cast<size_t>(nextPow2(sizeof(ThenChain)));
     auto* buffer = allocSmallBuffer<kImplSize>();
@@ -302,6 +306,7 @@ class FutureImplBase : private FutureImplResultMember<Result> {
     link->next = thenChain_.load(std::memory_order_acquire);
     while (!thenChain_.compare_exchange_weak(link->next, link, std::memory_order_acq_rel)) {
     }
+    DISPENSO_VERIF_POINT(::dispenso::verif::kFutureThenAfterPush);
 
     // Okay, one last thing.  It is possible that we added to the thenChain just after
     // tryExecuteThenChain was called from run(). We still need to ensure that this work is kicked
